@@ -444,6 +444,7 @@ func runC09(r *core.Run) {
 	lays := atlas.L5 // incl. Cl, the CLONE of a sliced view: strided storage that is not a view
 	vss := []string{"int", "frac"}
 	r.SetBound("dims", fmt.Sprintf("every dimension in 1..%d; rank-3 tensors for TensorMul/Dot", maxd))
+	c09Perms(r)
 	vecForms := func(n int) [][]int { return [][]int{{n}, {n, 1}, {1, n}} }
 	for _, d := range dts {
 		for _, la := range lays {
@@ -567,6 +568,82 @@ func runC09(r *core.Run) {
 						}
 					}
 				}
+			}
+		}
+	}
+}
+
+// c09Perms: contraction of rank-3 operands that are lazily transposed by EVERY permutation of their axes (the layout
+// "T" of the common atlas is the reversal only): TensorMul clones its operands and transposes the clones once more, so
+// the pending permutation and the internal one meet in Dense.T.
+func c09Perms(r *core.Run) {
+	d := ref.Float64
+	r.SetBound("permuted_operands", "TensorMul of rank-3 operands (2,2,2),(2,3,2),(3,3,3)x each lazily transposed by each of the 6 axis permutations x every pair of contraction axes of equal length")
+	for _, rs := range [][]int{{2, 2, 2}, {2, 3, 2}, {3, 3, 3}} {
+		for _, pa := range ref.Perms(3) {
+			for _, pb := range ref.Perms(3) {
+				if !r.Take() {
+					continue
+				}
+				if r.Expired() {
+					return
+				}
+				rs, pa, pb := rs, pa, pb
+				id := fmt.Sprintf("C09|TensorMulPerm|%s|a=T%v|b=T%v", shapeStr(rs), pa, pb)
+				if r.ReplayCase != "" && id != r.ReplayCase {
+					continue
+				}
+				r.Case(id, true, func() *core.Fail {
+					mk := func(perm []int, off int) (*atlas.Built, ref.Arr) {
+						tensor.VerifResetPools()
+						b, cls := atlas.Replay(d, rs, false, []atlas.Step{{Op: "T", Perm: perm}})
+						if b == nil || cls != "ok" {
+							return nil, ref.Arr{}
+						}
+						d.FillCodes(b.Root, off)
+						arr := ref.Arr{DT: d, Shape: ref.CopyInts(b.View.Shape), El: make([]interface{}, len(b.View.Cell))}
+						for i, c := range b.View.Cell {
+							arr.El[i] = ref.SliceGet(b.Root, c)
+						}
+						return b, arr
+					}
+					var fails []string
+					for i := 0; i < 3; i++ {
+						for j := 0; j < 3; j++ {
+							A, arrA := mk(pa, 1)
+							B, arrB := mk(pb, 3)
+							if A == nil || B == nil {
+								return nil // identity permutation: a no-op transpose, nothing pending
+							}
+							if arrA.Shape[i] != arrB.Shape[j] {
+								continue
+							}
+							want := contract(arrA, arrB, []int{i}, []int{j})
+							snapA, snapB := A.Snapshot(), B.Snapshot()
+							var res *tensor.Dense
+							var err error
+							o := call(func() error { res, err = A.T.TensorMul(B.T, []int{i}, []int{j}); return nil })
+							r.Op(1)
+							what := fmt.Sprintf("TensorMul of %v.T%v and %v.T%v over axes %d,%d", rs, pa, rs, pb, i, j)
+							if o.Class != "ok" || err != nil {
+								continue // a loud refusal is allowed
+							}
+							if ch := A.Changed(snapA); ch != "" {
+								fails = append(fails, what+": operand a changed: "+ch)
+							}
+							if ch := B.Changed(snapB); ch != "" {
+								fails = append(fails, what+": operand b changed: "+ch)
+							}
+							if f := cmpArr(res, want, what, false); f != nil {
+								fails = append(fails, f.Detail)
+							}
+						}
+					}
+					if len(fails) > 0 {
+						return core.F("wrong-value", fmt.Sprintf("%x", core.H64(strings.Join(fails, ";"))), "%s", strings.Join(fails[:1], " ; "))
+					}
+					return nil
+				})
 			}
 		}
 	}
